@@ -514,6 +514,9 @@ func (wsEngine) Gen(t *rapid.T, tier string) any {
 		if rapid.IntRange(0, 3).Draw(t, "pretty") == 0 {
 			// the same JSON text with insignificant whitespace (space, tab, LF, CR)
 			pl = wsPretty(pl, rapid.SampledFrom([]string{" ", "\n  ", "\r\n\t", "\t", "\r", " \r\n "}).Draw(t, "ws"))
+			// ... and after the whole text (line-oriented clients end with a newline).
+			// Not before it: the relay takes a message to start with "[" (DESIGN 9)
+			pl = append(pl, rapid.SampledFrom([]string{"", "\n", "\r\n", " ", "\t"}).Draw(t, "wstrail")...)
 		}
 		c.Frames = append(c.Frames, wsFrame{Kind: "valid", Payload: pl, Deliverable: true, Msg: m})
 	}
